@@ -6,6 +6,7 @@ import (
 	"log/slog"
 	"net/http"
 	"net/http/httptest"
+	"slices"
 	"sort"
 	"strings"
 	"sync"
@@ -363,7 +364,9 @@ func init() {
 	// whose group flushes, empties and is destroyed; the late worker then builds a new, regular group from the stale
 	// version, which notifies it as firing until its stale end time.
 	pbt.RegisterSignature("c14-stale-version-recreates-group", func(v pbt.Violation) bool {
-		return v.Kind == "stale-firing-notification" && v.Facts["older_version_listed"] == true && v.Facts["holding_group_listed"] == true
+		// (both versions reached the dispatcher over the subscription: a stale version out of the start-up snapshot
+		// is a different history, see C14Restart)
+		return v.Kind == "stale-firing-notification" && v.Facts["older_version_listed"] == true && v.Facts["holding_group_listed"] == true && v.Facts["listed_version_from_snapshot"] != true
 	})
 }
 
@@ -381,6 +384,54 @@ func TestC14Schedule(t *testing.T) {
 				}
 			}
 			res.Violations = kept
+			return res
+		},
+	})
+}
+
+// C14Restart: a dispatcher that starts over a provider which already holds alerts (every configuration reload) routes
+// that snapshot and then the updates arriving over its subscription. A snapshot version of an alert must not be applied
+// after a newer version of it that arrived over the subscription, however slow the routing of the snapshot is.
+func genC14Restart(t *rapid.T) c06Scenario {
+	sc := genC06(t)
+	if !slices.Contains(sc.Park, "group.loaded") {
+		sc.Park = append(sc.Park, "group.loaded")
+	}
+	n := rapid.IntRange(1, 3).Draw(t, "nPre")
+	for i := 0; i < n; i++ {
+		sc.PreStart = append(sc.PreStart, c06Step{Op: "put", Alert: rapid.IntRange(0, 3).Draw(t, "preAlert"), Group2: rapid.IntRange(0, 5).Draw(t, "preG2") == 0,
+			EndOff: rapid.SampledFrom([]int{40, 300, 300}).Draw(t, "preEnd")})
+	}
+	// bias: the first snapshot alert is resolved right after the start, time passes (flush, maintenance), then releases
+	if rapid.IntRange(0, 3).Draw(t, "resolveSoon") > 0 {
+		p := sc.PreStart[0]
+		pre := []c06Step{{Op: "put", Alert: p.Alert, Group2: p.Group2, EndOff: -1}}
+		if rapid.Bool().Draw(t, "thenAdvance") {
+			pre = append(pre, c06Step{Op: "advance", Dt: rapid.SampledFrom([]int{16, 31, 70}).Draw(t, "preDt")})
+			if rapid.Bool().Draw(t, "thenAdvance2") {
+				pre = append(pre, c06Step{Op: "advance", Dt: rapid.SampledFrom([]int{16, 31, 70}).Draw(t, "preDt2")})
+			}
+		}
+		sc.Steps = append(pre, sc.Steps...)
+	}
+	return sc
+}
+
+func TestC14Restart(t *testing.T) {
+	pbt.Run(t, pbt.Spec[c06Scenario]{
+		Property: "C14", Name: "C14Restart",
+		Rule: "the scenarios of C06Schedule preceded by 1-3 firing alerts put BEFORE the dispatcher is started, so that it finds them in the provider's snapshot (SlurpAndSubscribe) while every later update (usually first a resolve of the first snapshot alert, then 16-140 s of virtual time: flush, emptying, maintenance sweep) reaches it over the subscription; group.loaded is always a parking point, so the goroutine that routes the snapshot can be held while later updates are processed. Judged as C14Schedule: after draining, every firing alert of the provider is held by exactly one live group and notified, and no later notification lists as firing an alert whose last submitted version ended more than group_interval earlier; a stale version that came out of the snapshot is not covered by the known finding F24 (fact listed_version_from_snapshot). Non-trivial: a snapshot version was parked at group.loaded.",
+		Gen:  genC14Restart,
+		Exec: func(sc c06Scenario) pbt.Result {
+			res := execC06(sc)
+			kept := res.Violations[:0]
+			for _, v := range res.Violations {
+				if v.Kind == "alert-not-in-one-group" || v.Kind == "group-without-running-timer" || v.Kind == "stale-firing-notification" || v.Kind == "harness" {
+					kept = append(kept, v)
+				}
+			}
+			res.Violations = kept
+			res.NonTrivial = slices.Contains(res.Classes, "snapshot-version-parked")
 			return res
 		},
 	})
